@@ -76,8 +76,9 @@ def _k1_at(d):
 
 
 def _k2_at(d):
-    """Comparison with a Comparison operand: printed without parentheses."""
-    return _is(d, "cmp") and (_is(d[3], "cmp") or _is(d[2], "cmp"))
+    """Comparison whose RIGHT operand is a Comparison: printed without parentheses and re-read left-nested.  (A
+    comparison in the LEFT operand prints as the chain a < b > c, which re-reads to the same tree: not part of K2.)"""
+    return _is(d, "cmp") and _is(d[3], "cmp")
 
 
 def _k3_followed_ifs(d):
@@ -121,10 +122,8 @@ def abstract_known(d, ctr, which, detached):
         return ["v", "ab%d" % next(ctr)]
     if k == "**" and "C19-K1" in which and _is(d[1], "**"):
         return ["**", fresh(d[1]), rec(d[2])]
-    if k == "cmp" and "C19-K2" in which and (_is(d[2], "cmp") or _is(d[3], "cmp")):
-        l = fresh(["cmp"] + d[2][2:]) if _is(d[2], "cmp") else rec(d[2])
-        r = fresh(["cmp"] + d[3][2:]) if _is(d[3], "cmp") else rec(d[3])
-        return ["cmp", d[1], l, r]
+    if k == "cmp" and "C19-K2" in which and _is(d[3], "cmp"):
+        return ["cmp", d[1], rec(d[2]), fresh(["cmp"] + d[3][2:])]
     if k == "call":
         args = list(d[2])
         kw = exprdsl.kwitems(d)
@@ -342,6 +341,9 @@ def lexical_family():
         ["call", "<func>f", [a], {"k": ["not", b]}], ["call", "<func>f", [a], {"k": V("notb")}],
         ["sub", V("v"), ["if", c, a, b]], ["sub", V("v"), V("aifcelseb")],
         ["cmp", "<", a, V("<p>x")], ["cmp", ">", V("<p>x"), a],
+        ["cmp", ">", ["cmp", "<", a, b], c], ["cmp", ">=", ["cmp", "<", a, V("n")], ["c", 0]],
+        ["cmp", ">", ["cmp", "<", V("<state>y"), V("n")], V("<p>k")], ["cmp", "<", ["cmp", ">", a, b], c],
+        ["if", ["cmp", ">", ["cmp", "<", a, b], c], a, b], ["call", "<func>f", [a], {"k": ["cmp", ">", ["cmp", "<", a, b], c]}],
         ["if", ["not", c], V("nota"), ["not", a]], ["if", V("notc"), ["not", a], V("nota")],
         ["+", a, ["c", 1]], V("a1"),
         ["*", a, V("e5")], ["*", ["c", 1e5], a],
